@@ -1,7 +1,7 @@
 // C15 harness: executes the real FEAT trafo / space evaluators / DOF mappings / Interpolator at the exact
 // rational type Q, one case per line (see FeatModel/Driver/C15.lean for the line protocol).
 //   <op> <fam> <S|H> <dim> <mesh body> <op arguments>
-//   ops: ev, evcfg (every config mask), caps, ref, dofs, interp, vol, trcfg (trafo config masks), unmap (double precision)      fams: L1 L2 L3 D0 D1 CR B2 PB (vol, unmap: fam is "-")
+//   ops: ev, evpts, evcfg (every config mask), caps, ref, dofs, interp, vol, trcfg (trafo config masks), unmap (double precision)      fams: L1 L2 L3 D0 D1 CR B2 PB HE (Hermite-3) BF (Bogner-Fox-Schmit) (vol, unmap: fam is "-")
 #include "c15_ops.hpp"
 
 using namespace c15;
